@@ -45,7 +45,7 @@ def check(job):
         return m['id'], 'invalid', []
     rules = sorted(set(re.findall(r'\] (C\d+\.[a-z0-9-]+)', out)))
     props = sorted(set(re.findall(r'VIOLATION property=(C\d+)', out)))
-    if 'SELFTEST FAILED' in out or 'panic' in out and not props:
+    if 'SELFTEST FAILED' in out or ('panic:' in out or 'goroutine ' in out) and not props:
         return m['id'], 'error', [out[-300:]]
     return m['id'], ('killed' if props else 'survived'), rules
 
